@@ -185,25 +185,33 @@ func hemiRings(R float64, rows int) (ys, rs []float64) {
 type model struct {
 	inscribed float64    // volume of the inscribed polyhedron for the parameters
 	analytic  float64    // volume of the smooth solid
-	size      float64    // smallest characteristic dimension (tolerances scale with it)
+	size      float64    // smallest characteristic dimension (relative tolerances scale with it)
+	big       float64    // largest characteristic dimension (absolute rounding noise scales with it)
 	interior  [3]float64 // a point strictly inside the solid
 	offSurf   func(p [3]float64) float64
 	normals   bool // property lists this primitive among those whose normals are constrained
 }
+
+const ulp = 2.220446049250313e-16
+
+func (m model) posTol() float64 { return 1e-9*m.size + 16*ulp*m.big }
+
+// volTol: 1e-9 relative, plus the effect of the coordinate noise on the thinnest extent.
+func (m model) volTol() float64 { return 1e-9 + 6*16*ulp*m.big/m.size }
 
 func reference(p prim) model {
 	switch p.Kind {
 	case "sphere", "sphere-unwelded":
 		ys, rs := sphereRings(p.R, p.Rows)
 		return model{
-			inscribed: frustumSum(p.Cols, ys, rs), analytic: 4. / 3 * math.Pi * p.R * p.R * p.R, size: p.R,
+			inscribed: frustumSum(p.Cols, ys, rs), analytic: 4. / 3 * math.Pi * p.R * p.R * p.R, size: p.R, big: p.R,
 			offSurf: func(q [3]float64) float64 { return math.Abs(norm(q) - p.R) },
 			normals: p.Kind == "sphere",
 		}
 	case "hemisphere":
 		ys, rs := hemiRings(p.R, p.Rows)
 		return model{
-			inscribed: frustumSum(p.Cols, ys, rs), analytic: 2. / 3 * math.Pi * p.R * p.R * p.R, size: p.R,
+			inscribed: frustumSum(p.Cols, ys, rs), analytic: 2. / 3 * math.Pi * p.R * p.R * p.R, size: p.R, big: p.R,
 			interior: [3]float64{0, p.R / 3, 0},
 			offSurf: func(q [3]float64) float64 {
 				dome := math.Abs(norm(q) - p.R)
@@ -217,7 +225,7 @@ func reference(p prim) model {
 	case "cylinder":
 		hh := p.H / 2
 		return model{
-			inscribed: ngonFactor(p.Sides) * p.R * p.R * p.H, analytic: math.Pi * p.R * p.R * p.H, size: math.Min(p.R, p.H),
+			inscribed: ngonFactor(p.Sides) * p.R * p.R * p.H, analytic: math.Pi * p.R * p.R * p.H, size: math.Min(p.R, p.H), big: math.Max(p.R, p.H),
 			offSurf: func(q [3]float64) float64 {
 				rho := math.Hypot(q[0], q[2])
 				side := math.Abs(rho-p.R) + math.Max(0, math.Abs(q[1])-hh)
@@ -229,7 +237,7 @@ func reference(p prim) model {
 	default: // cubes
 		hw, hh, hd := p.W/2, p.H/2, p.D/2
 		return model{
-			inscribed: p.W * p.H * p.D, analytic: p.W * p.H * p.D, size: math.Min(p.W, math.Min(p.H, p.D)),
+			inscribed: p.W * p.H * p.D, analytic: p.W * p.H * p.D, size: math.Min(p.W, math.Min(p.H, p.D)), big: math.Max(p.W, math.Max(p.H, p.D)),
 			offSurf: func(q [3]float64) float64 {
 				ex := [3]float64{math.Abs(q[0]) - hw, math.Abs(q[1]) - hh, math.Abs(q[2]) - hd}
 				out := math.Max(0, ex[0]) + math.Max(0, ex[1]) + math.Max(0, ex[2])
@@ -275,7 +283,11 @@ func check(c *run.Ctx, res *run.Result, p prim) *observed {
 		res.Violate("malformed-mesh", p.site(), p.Kind, fmt.Sprintf("%s: %v", p, err), p)
 		return nil
 	}
-	tol := 1e-9 * ref.size
+	// position tolerance: 1e-9 of the smallest dimension, plus the rounding noise a float64 construction
+	// from rotations and translations leaves on every coordinate (a few ulps of the LARGEST dimension:
+	// sin(pi) = 1.2e-16 times a coordinate of another axis). For extreme aspect ratios the second term
+	// dominates; it stays far below the smallest feature as long as the ratio is <= 1e12.
+	tol := ref.posTol()
 	s := analyse(P, N, idx, tol, 1e-14*ref.size*ref.size)
 	ob := &observed{Volume: s.Volume, Tris: s.Tris, Verts: len(P), Merged: s.Merged, HasNormal: N != nil}
 	res.Count("meshes", 1)
@@ -327,7 +339,7 @@ func check(c *run.Ctx, res *run.Result, p prim) *observed {
 		}
 	}
 	for i, q := range P {
-		if d := ref.offSurf(q); !(d <= 1e-9*ref.size) {
+		if d := ref.offSurf(q); !(d <= tol) {
 			off++
 			if firstOff == "" {
 				firstOff = fmt.Sprintf("vertex %d at %v is %g away from the solid's boundary", i, q, d)
@@ -343,7 +355,7 @@ func check(c *run.Ctx, res *run.Result, p prim) *observed {
 	if off > 0 {
 		res.Violate("vertex-off-solid-boundary", p.site(), in, fmt.Sprintf("%s: %d of %d vertices not on the boundary of the solid (polyhedron not inscribed); %s", p, off, len(P), firstOff), p)
 	}
-	if math.Abs(s.Volume-ref.inscribed) > 1e-9*ref.inscribed {
+	if math.Abs(s.Volume-ref.inscribed) > ref.volTol()*ref.inscribed {
 		res.Violate("volume-mismatch", p.site(), in, fmt.Sprintf("%s: enclosed volume %.15g, inscribed polyhedron for the parameters has %.15g (rel. diff %.3g); analytic solid %.15g",
 			p, s.Volume, ref.inscribed, (s.Volume-ref.inscribed)/ref.inscribed, ref.analytic), p)
 	}
@@ -367,24 +379,59 @@ func uvClass(p prim) string {
 
 // ------------------------------------------------------------------ workload
 
-// dim draws a dimension spread over six orders of magnitude: scale*10^[-1.5,1.5]
-// with scale itself in 10^[-1.5,1.5].
+// dims draws n dimensions in [1e-9, 1e9]. Modes: a common scale anywhere in that range with factors
+// within 1e3 of each other; every dimension log-uniform on its own (ratio capped at 1e12, beyond that
+// float64 cannot hold the solid); named extreme aspect ratios (1 x 1 x 1e-7, 1e6 x 1e-6 x 1, ...);
+// exact small integers; float32-representable values.
 func dims(r *rand.Rand, n int) []float64 {
-	scale := math.Pow(10, -1.5+3*r.Float64())
 	out := make([]float64, n)
-	for i := range out {
-		out[i] = scale * math.Pow(10, -1.5+3*r.Float64())
+	clamp := func() {
+		for i := range out {
+			out[i] = math.Min(1e9, math.Max(1e-9, out[i]))
+		}
 	}
-	switch r.Intn(6) { // exact small numbers and float32-ish values as well
-	case 0:
+	switch m := r.Intn(20); {
+	case m < 9:
+		scale := math.Pow(10, -7.5+15*r.Float64())
+		for i := range out {
+			out[i] = scale * math.Pow(10, -1.5+3*r.Float64())
+		}
+		if r.Intn(4) == 0 {
+			for i := range out {
+				out[i] = float64(float32(out[i]))
+			}
+		}
+	case m < 14:
+		lo, hi := math.Inf(1), math.Inf(-1)
+		e := make([]float64, n)
+		for i := range e {
+			e[i] = -9 + 18*r.Float64()
+			lo, hi = math.Min(lo, e[i]), math.Max(hi, e[i])
+		}
+		for i := range e {
+			if hi-lo > 12 {
+				e[i] = lo + (e[i]-lo)*12/(hi-lo)
+			}
+			out[i] = math.Pow(10, e[i])
+		}
+	case m < 18:
+		pats := [][]float64{{1, 1, 1e-7}, {1e6, 1e-6, 1}, {1, 1e-7, 1e-7}, {1e-7, 1e-7, 1e-7}, {1e-6, 1e-6, 1}, {2e-6, 1, 1}, {1e9, 1e9, 1e9}, {1e-9, 1e-9, 1e-9}, {1e-9, 1e-3, 1e-3}, {1e3, 1e9, 1e-3}}
+		pat := pats[r.Intn(len(pats))]
+		perm := r.Perm(3)
+		for i := range out {
+			out[i] = pat[perm[i]]
+		}
+		if r.Intn(2) == 0 { // same shape, jittered
+			for i := range out {
+				out[i] *= 0.5 + r.Float64()
+			}
+		}
+	default:
 		for i := range out {
 			out[i] = float64(1 + r.Intn(4))
 		}
-	case 1:
-		for i := range out {
-			out[i] = float64(float32(out[i]))
-		}
 	}
+	clamp()
 	return out
 }
 
@@ -461,6 +508,23 @@ func fill(r *rand.Rand, cb combo) prim {
 }
 
 func finish(res *run.Result, p prim, ob *observed) {
+	lo, hi := math.Inf(1), 0.
+	for _, d := range []float64{p.R, p.H, p.W, p.D} {
+		if d > 0 {
+			lo, hi = math.Min(lo, d), math.Max(hi, d)
+		}
+	}
+	if ob != nil {
+		if lo < 2e-6 {
+			res.Count("meshes_with_a_dimension_below_2e-6", 1)
+		}
+		if hi > 1e6 {
+			res.Count("meshes_with_a_dimension_above_1e6", 1)
+		}
+		if hi/lo >= 1e6 {
+			res.Count("meshes_with_aspect_ratio_of_1e6_or_more", 1)
+		}
+	}
 	res.Sample = map[string]any{"call": p.String(), "observed": ob}
 	res.SetAdd("kinds", p.Kind)
 	res.SetAdd("uv_options", p.Kind+":"+uvClass(p))
@@ -589,18 +653,19 @@ func refineCase(c *run.Ctx) run.Result {
 func Spec() *run.Spec {
 	return &run.Spec{
 		ID: "C18", Level: "exploration",
-		Rule: "grid: every (kind, rows 2..12 x columns 3..16 | sides 3..24 | cube variant, UV option) combination, each repetition with fresh dimensions drawn over 1e-3..1e3 (per-case ratio <= 1e3); " +
+		Rule: "grid: every (kind, rows 2..12 x columns 3..16 | sides 3..24 | cube variant, UV option) combination, each repetition with fresh dimensions drawn over 1e-9..1e9 (common scale with ratios <= 1e3, independent log-uniform dimensions with ratio <= 1e12, named extreme aspect ratios such as 1x1x1e-7 and 1e6x1e-6x1, small integers); " +
 			"large: counts sampled log-uniformly up to 200; refine: doubling sequences of one primitive up to a count of 256. A case is non-trivial when the constructor returned a mesh of >= 4 faces " +
 			"(refine: >= 4 steps); distinctness = kind + counts (bucketed by 25 in `large`) + UV option class.",
 		Assumptions: []string{
 			"admissible parameters: radius/height/width/depth > 0, rows >= 2, columns >= 3 (the constructors panic below that), cylinder sides >= 3 (Cylinder accepts 1 and 2 without complaint but a 1- or 2-gon prism is not a solid), NoTop/NoBottom false (capped cylinder)",
-			"coincident positions are merged at 1e-9 x the smallest dimension before edges are paired, as the property states; volumes are compared at 1e-9 relative",
+			"coincident positions are merged at 1e-9 x the smallest dimension + 16 ulp x the largest dimension (float64 rounding of a construction by rotations/translations puts noise of a few ulps of the largest extent on every coordinate) before edges are paired, as the property states; volumes are compared at 1e-9 relative + 96 ulp x largest/smallest dimension; the aspect ratio within one solid is capped at 1e12",
 			"inscribed polyhedron = convex polyhedron on the vertex layout the parameters define: UV sphere rows-1 rings at polar angle pi*i/rows; hemisphere rings at (pi/2)*k/rows for k=2..rows plus pole and flat cap (polyform's Hemisphere.UV(rows,..) has rows-1 bands, the ring next to the pole is absent; taken as the definition, reported as an observation); prism n/2 r^2 sin(2pi/n) h; box w*h*d",
 			"normals are constrained only where the property lists them (sphere, box, cylinder); the hemisphere's normals (radial on the flat cap's rim, NaN at the cap centre) are outside the statement",
 			"UV options, exhaustively in the grid phase: cylinder nil and all 8 nil/non-nil combinations of {Top,Bottom,Side}; cube nil, DefaultCubeUVs() and all 64 nil/non-nil combinations of the six faces, with random strips",
 		},
 		MinNontrivial: map[string]int{"quick": 750, "thorough": 800},
-		MinObserved:   map[string]int64{"kinds": 6, "meshes_with_normals_checked": 300, "refinement_steps": 100, "meshes_with_a_count_of_150_or_more": 5, "uv_options": 10, "uv_masks": 140},
+		MinObserved: map[string]int64{"kinds": 6, "meshes_with_normals_checked": 300, "refinement_steps": 100, "meshes_with_a_count_of_150_or_more": 5, "uv_options": 10, "uv_masks": 140,
+			"size_decades": 16, "meshes_with_a_dimension_below_2e-6": 200, "meshes_with_a_dimension_above_1e6": 200, "meshes_with_aspect_ratio_of_1e6_or_more": 50},
 		Phases: []run.Phase{
 			{Name: "grid", Cases: func(t string) int {
 				if t == "thorough" {
